@@ -166,3 +166,296 @@ Proof.
   intros HRH Hf Hfree q Hq Hoq.
   pose proof (free_bound c v f HRH Hf Hfree q Hq Hoq). pose proof (dist_lt c f q Hf Hq). lia.
 Qed.
+
+(* ------------------------------------------------------------------------------------- *)
+(* propagate: carrying an entry [s] that is in order at [p] forward to the first free slot *)
+
+Lemma occupied_bump s : occupied (bump s) = occupied s.
+Proof. reflexivity. Qed.
+
+Lemma propagate_ok c f : 1 <= c -> f < c ->
+  forall fuel v s p,
+  length v = c -> p < c -> RHloc c v -> occupied s = true -> slot_ok c v p s ->
+  occupied (nth f v empty_slot) = false -> dist c p f < fuel ->
+  propagate fuel v c s p <> OutOfFuel /\
+  forall w, propagate fuel v c s p = Ok w ->
+    length w = c /\ RHloc c w /\ Permutation (pays1 s ++ pays v) (pays w).
+Proof.
+  intros Hc Hf. induction fuel as [|n IH]; intros v s p Hlen Hp HRH Hs Hok Hfree Hfuel; [lia|].
+  cbn [propagate]. rewrite (mod_nxt c p Hp).
+  remember (nth p v empty_slot) as cur eqn:Ecur. destruct (occupied cur) eqn:Hocc.
+  - assert (Hpf : p <> f) by (intros ->; congruence).
+    destruct (dist_from_nxt c p f Hp Hf Hpf) as [Hdn Hdpos].
+    assert (Hnw : spsl cur + 2 <= c).
+    { rewrite Ecur. apply (free_bound_nowrap c v f HRH Hf Hfree p Hp). rewrite <- Ecur. exact Hocc. }
+    assert (Hcd : spsl cur = dist c (home c (shash cur)) p).
+    { rewrite Ecur. apply (HRH p Hp). rewrite <- Ecur. exact Hocc. }
+    destruct Hok as [Hsd Hsp].
+    pose proof (home_lt c (shash cur) Hc) as Hhc. pose proof (home_lt c (shash s) Hc) as Hhs.
+    pose proof (pays_set_nth v p s ltac:(lia)) as Hpset. rewrite <- Ecur in Hpset.
+    destruct (Nat.ltb_spec (spsl cur) (spsl s)) as [Hlt|Hge].
+    + (* swap: s takes the slot, the incumbent travels on *)
+      destruct (Nat.leb psl_max (spsl cur)); [split; [discriminate|intros w E; discriminate]|].
+      assert (HRH' : RHloc c (set_nth v p s)).
+      { apply RHloc_set_nth; auto; [split; auto|]. rewrite <- Ecur. lia. }
+      destruct (IH (set_nth v p s) (bump cur) (nxt c p)) as [Hnf Hres].
+      * rewrite length_set_nth; auto.
+      * apply nxt_lt; auto.
+      * exact HRH'.
+      * exact Hocc.
+      * split.
+        -- cbn [bump spsl shash]. rewrite dist_nxt by (auto; lia). lia.
+        -- right. rewrite prd_nxt by auto. rewrite nth_set_nth_eq by lia.
+           split; [exact Hs|]. cbn [bump spsl]. lia.
+      * rewrite nth_set_nth_neq by auto. exact Hfree.
+      * lia.
+      * split; [exact Hnf|]. intros w E. destruct (Hres w E) as (Hl & Hr & Hperm).
+        split; [exact Hl|]. split; [exact Hr|]. rewrite pays1_bump in Hperm.
+        etransitivity; [exact Hpset|exact Hperm].
+    + (* no swap: s travels on *)
+      destruct (Nat.leb psl_max (spsl s)); [split; [discriminate|intros w E; discriminate]|].
+      destruct (IH v (bump s) (nxt c p)) as [Hnf Hres]; auto.
+      * apply nxt_lt; auto.
+      * split.
+        -- cbn [bump spsl shash]. rewrite dist_nxt by (auto; lia). lia.
+        -- right. rewrite prd_nxt by auto. rewrite <- Ecur.
+           split; [exact Hocc|]. cbn [bump spsl]. lia.
+      * lia.
+  - split; [discriminate|]. intros w E. injection E as <-.
+    pose proof (pays_set_nth v p s ltac:(lia)) as Hpset. rewrite <- Ecur in Hpset.
+    rewrite (pays1_occupied cur Hocc) in Hpset. simpl in Hpset.
+    split; [rewrite length_set_nth; auto|]. split; [|exact Hpset].
+    apply RHloc_set_nth; auto. rewrite <- Ecur, Hocc. discriminate.
+Qed.
+
+(* propagate never looks at a slot that lies cyclically behind the first free slot *)
+Definition res_map {A B} (g : A -> B) (r : res A) : res B :=
+  match r with Ok a => Ok (g a) | PslOverflow => PslOverflow | OutOfFuel => OutOfFuel end.
+
+Lemma set_nth_comm {A} (l : list A) i j x y : i <> j ->
+  set_nth (set_nth l i x) j y = set_nth (set_nth l j y) i x.
+Proof.
+  revert i j; induction l as [|z l IH]; intros [|i] [|j] Hne; simpl; auto; try lia.
+  f_equal. apply IH. lia.
+Qed.
+
+Lemma propagate_comm c f q y : f < c -> q < c ->
+  forall fuel v s p, length v = c -> p < c -> occupied (nth f v empty_slot) = false ->
+  dist c p f < dist c p q ->
+  propagate fuel (set_nth v q y) c s p = res_map (fun w => set_nth w q y) (propagate fuel v c s p).
+Proof.
+  intros Hf Hq. induction fuel as [|n IH]; intros v s p Hlen Hp Hfree Hd; [reflexivity|].
+  assert (Hpq : p <> q) by (intros ->; rewrite dist_refl in Hd; lia).
+  cbn [propagate]. rewrite (mod_nxt c p Hp). rewrite nth_set_nth_neq by auto.
+  destruct (occupied (nth p v empty_slot)) eqn:Hocc.
+  - assert (Hpf : p <> f) by (intros ->; congruence).
+    destruct (dist_from_nxt c p f Hp Hf Hpf) as [Hdn Hdpos].
+    destruct (dist_from_nxt c p q Hp Hq Hpq) as [Hdq _].
+    destruct (Nat.ltb (spsl (nth p v empty_slot)) (spsl s)).
+    + destruct (Nat.leb psl_max (spsl (nth p v empty_slot))); [reflexivity|].
+      rewrite (set_nth_comm v q p y s) by auto. apply IH.
+      * rewrite length_set_nth; auto.
+      * apply nxt_lt; auto.
+      * rewrite nth_set_nth_neq by auto. exact Hfree.
+      * lia.
+    + destruct (Nat.leb psl_max (spsl s)); [reflexivity|].
+      apply IH; auto. { apply nxt_lt; auto. } lia.
+  - cbn [res_map]. rewrite (set_nth_comm v q p y s) by auto. reflexivity.
+Qed.
+
+(* get_or_insert's "rich slot" case: propagate the incumbent from its own slot, then overwrite *)
+Lemma propagate_then_overwrite c v f pos new :
+  1 <= c -> length v = c -> RHloc c v -> f < c -> occupied (nth f v empty_slot) = false ->
+  pos < c -> occupied (nth pos v empty_slot) = true -> occupied new = true ->
+  slot_ok c v pos new -> spsl (nth pos v empty_slot) < spsl new ->
+  propagate (S c) v c (nth pos v empty_slot) pos <> OutOfFuel /\
+  forall w, propagate (S c) v c (nth pos v empty_slot) pos = Ok w ->
+    length (set_nth w pos new) = c /\ RHloc c (set_nth w pos new) /\
+    Permutation (pays1 new ++ pays v) (pays (set_nth w pos new)).
+Proof.
+  intros Hc Hlen HRH Hf Hfree Hpos Hocc Hnew Hok Hlt.
+  remember (nth pos v empty_slot) as cur eqn:Ecur.
+  cbn [propagate]. rewrite (mod_nxt c pos Hpos). rewrite <- Ecur, Hocc, Nat.ltb_irrefl.
+  destruct (Nat.leb psl_max (spsl cur)); [split; [discriminate|intros w E; discriminate]|].
+  assert (Hpf : pos <> f) by (intros ->; congruence).
+  assert (Hnw : spsl cur + 2 <= c).
+  { rewrite Ecur. apply (free_bound_nowrap c v f HRH Hf Hfree pos Hpos). rewrite <- Ecur. exact Hocc. }
+  assert (Hcd : spsl cur = dist c (home c (shash cur)) pos).
+  { rewrite Ecur. apply (HRH pos Hpos). rewrite <- Ecur. exact Hocc. }
+  pose proof (home_lt c (shash cur) Hc) as Hhc.
+  set (v0 := set_nth v pos new).
+  assert (Hcomm : propagate c v0 c (bump cur) (nxt c pos)
+                  = res_map (fun w => set_nth w pos new) (propagate c v c (bump cur) (nxt c pos))).
+  { apply (propagate_comm c f pos new Hf Hpos); auto. { apply nxt_lt; auto. }
+    rewrite dist_nxt_self by auto.
+    pose proof (dist_lt c (nxt c pos) f (nxt_lt c pos Hpos) Hf).
+    assert (dist c (nxt c pos) f <> c - 1).
+    { intros E. rewrite <- (dist_nxt_self c pos Hpos) in E.
+      apply dist_inj in E; auto. apply nxt_lt; auto. }
+    lia. }
+  destruct (propagate_ok c f Hc Hf c v0 (bump cur) (nxt c pos)) as [Hnf Hres].
+  - unfold v0. rewrite length_set_nth; auto.
+  - apply nxt_lt; auto.
+  - unfold v0. apply RHloc_set_nth; auto. rewrite <- Ecur. lia.
+  - exact Hocc.
+  - split.
+    + cbn [bump spsl shash]. rewrite dist_nxt by (auto; lia). lia.
+    + right. rewrite prd_nxt by auto. unfold v0. rewrite nth_set_nth_eq by lia.
+      split; [exact Hnew|]. cbn [bump spsl]. lia.
+  - unfold v0. rewrite nth_set_nth_neq by auto. exact Hfree.
+  - apply dist_lt; auto. apply nxt_lt; auto.
+  - rewrite Hcomm in Hnf, Hres.
+    pose proof (pays_set_nth v pos new ltac:(lia)) as Hpset. rewrite <- Ecur in Hpset. fold v0 in Hpset.
+    destruct (propagate c v c (bump cur) (nxt c pos)) as [w| |]; cbn [res_map] in *.
+    + split; [discriminate|]. intros w' E. injection E as <-.
+      destruct (Hres _ eq_refl) as (Hl & Hr & Hperm). split; [exact Hl|]. split; [exact Hr|].
+      rewrite pays1_bump in Hperm. etransitivity; [exact Hpset|exact Hperm].
+    + split; [discriminate|intros w' E; discriminate].
+    + congruence.
+Qed.
+
+(* ------------------------------------------------------------------------------------- *)
+(* grow (the repaired one): robin-hood insertion of every stored entry into an empty table *)
+
+Lemma fold_grow_err fixed c l (e : res (list slot)) :
+  (forall v, e <> Ok v) -> fold_left (grow_step fixed c) l e = e.
+Proof.
+  intros He. induction l as [|x l IH]; [reflexivity|]. simpl.
+  destruct e as [v| |]; [exfalso; eapply He; reflexivity|exact IH|exact IH].
+Qed.
+
+Lemma grow_fold c : 1 <= c -> forall l acc,
+  length acc = c -> RHloc c acc -> length (pays acc) + length (pays l) < c ->
+  fold_left (grow_step true c) l (Ok acc) <> OutOfFuel /\
+  forall w, fold_left (grow_step true c) l (Ok acc) = Ok w ->
+    length w = c /\ RHloc c w /\ Permutation (pays l ++ pays acc) (pays w).
+Proof.
+  intros Hc. induction l as [|x l IH]; intros acc Hlen HRH Hcnt.
+  - simpl. split; [discriminate|]. intros w E. injection E as <-. auto.
+  - cbn [fold_left grow_step].
+    change (pays (x :: l)) with (pays1 x ++ pays l) in *. rewrite app_length in Hcnt.
+    destruct (occupied x) eqn:Hox.
+    + destruct (exists_free acc) as (f & Hf & Hfree); [lia|]. rewrite Hlen in Hf.
+      set (s0 := {| sid := sid x; shash := shash x; spsl := 0 |}).
+      assert (Hp1 : pays1 s0 = pays1 x) by reflexivity.
+      destruct (propagate_ok c f Hc Hf (S c) acc s0 (home c (shash x))) as [Hnf Hres]; auto.
+      * apply home_lt; auto.
+      * split; [|left; reflexivity]. cbn [s0 spsl shash]. rewrite dist_refl. reflexivity.
+      * pose proof (dist_lt c (home c (shash x)) f (home_lt c _ Hc) Hf). lia.
+      * destruct (propagate (S c) acc c s0 (home c (shash x))) as [acc'| |] eqn:E.
+        -- destruct (Hres _ eq_refl) as (Hl & Hr & Hperm). rewrite Hp1 in Hperm.
+           pose proof (Permutation_length Hperm) as Hpl. rewrite app_length in Hpl.
+           destruct (IH acc' Hl Hr ltac:(lia)) as [Hnf' Hres']. split; [exact Hnf'|].
+           intros w Ew. destruct (Hres' w Ew) as (Hl' & Hr' & Hperm').
+           split; [exact Hl'|]. split; [exact Hr'|].
+           etransitivity; [|exact Hperm']. rewrite <- app_assoc.
+           etransitivity; [apply Permutation_app_swap_app|].
+           apply Permutation_app_head. exact Hperm.
+        -- rewrite fold_grow_err by discriminate. split; [discriminate|intros w Ew; discriminate].
+        -- congruence.
+    + rewrite (pays1_occupied x Hox) in *. simpl in *. apply IH; auto.
+Qed.
+
+Lemma next_pow2_ge n : n <= next_pow2 n.
+Proof.
+  unfold next_pow2. destruct (le_lt_dec n 1) as [Hle|Hgt].
+  - pose proof (Nat.pow_nonzero 2 (Nat.log2_up n)). lia.
+  - apply Nat.log2_up_spec. lia.
+Qed.
+
+(* ------------------------------------------------------------------------------------- *)
+(* the table invariant, for an arbitrary hash function on elements                       *)
+
+Section WithHash.
+Variable H : N -> N.   (* any hash function: all collision patterns *)
+
+Definition TI (t : table) : Prop :=
+  1 <= cap t /\ length (tbl t) = cap t /\ RHloc (cap t) (tbl t) /\
+  Permutation (map fst (pays (tbl t))) (seq 0 (length (arena t))) /\
+  (forall i h, In (i, h) (pays (tbl t)) -> h = H (nth i (arena t) 0%N)) /\
+  NoDup (arena t) /\ len t = length (arena t) /\ len t < cap t.
+
+Lemma TI_new c : 1 <= c -> TI (new_table c).
+Proof.
+  intros Hc. unfold TI, new_table; cbn [tbl cap len arena].
+  rewrite pays_repeat_empty, repeat_length. simpl.
+  split; [exact Hc|]. split; [reflexivity|]. split; [apply RHloc_empty|]. split; [constructor|].
+  split; [intros i h []|]. split; [constructor|]. split; [reflexivity|lia].
+Qed.
+
+Lemma TI_id_lt t i h : TI t -> In (i, h) (pays (tbl t)) -> i < length (arena t).
+Proof.
+  intros (_ & _ & _ & Hperm & _) Hin.
+  assert (Hi : In i (map fst (pays (tbl t)))) by (apply (in_map fst) in Hin; exact Hin).
+  apply (Permutation_in _ Hperm) in Hi. apply in_seq in Hi. lia.
+Qed.
+
+Lemma TI_stored t i : TI t -> i < length (arena t) ->
+  exists q, q < cap t /\ sid (nth q (tbl t) empty_slot) = Some i /\
+            shash (nth q (tbl t) empty_slot) = H (nth i (arena t) 0%N).
+Proof.
+  intros HTI Hi. pose proof HTI as (_ & Hlen & _ & Hperm & Hh & _).
+  assert (Hin : In i (map fst (pays (tbl t)))).
+  { apply (Permutation_in _ (Permutation_sym Hperm)). apply in_seq. lia. }
+  apply in_map_iff in Hin. destruct Hin as ([i' h] & Ei & Hin). simpl in Ei. subst i'.
+  pose proof (Hh _ _ Hin) as ->. apply In_pays in Hin. destruct Hin as (q & Hq & Hs & Hsh).
+  exists q. rewrite Hlen in Hq. auto.
+Qed.
+
+Lemma TI_pays_length t : TI t -> length (pays (tbl t)) = len t.
+Proof.
+  intros (_ & _ & _ & Hperm & _ & _ & Hl & _).
+  apply Permutation_length in Hperm. rewrite map_length, seq_length in Hperm. lia.
+Qed.
+
+Lemma TI_free t : TI t -> exists f, f < cap t /\ occupied (nth f (tbl t) empty_slot) = false.
+Proof.
+  intros HTI. pose proof (TI_pays_length t HTI). destruct HTI as (_ & Hlen & _ & _ & _ & _ & _ & Hlt).
+  rewrite <- Hlen. apply exists_free. lia.
+Qed.
+
+Lemma TI_grow t : TI t ->
+  grow true t <> OutOfFuel /\
+  forall t', grow true t = Ok t' ->
+    TI t' /\ arena t' = arena t /\ len t' = len t /\ hits t' = hits t /\ cap t + 1 <= cap t'.
+Proof.
+  intros HTI. pose proof (TI_pays_length t HTI) as Hpl.
+  destruct HTI as (Hc & Hlen & HRH & Hperm & Hh & Hnd & Hl & Hlt).
+  unfold grow. pose proof (next_pow2_ge (cap t + 1)) as Hge.
+  set (c' := next_pow2 (cap t + 1)) in *.
+  destruct (grow_fold c' ltac:(lia) (tbl t) (repeat empty_slot c')) as [Hnf Hres].
+  - apply repeat_length.
+  - apply RHloc_empty.
+  - rewrite pays_repeat_empty. simpl. lia.
+  - destruct (fold_left (grow_step true c') (tbl t) (Ok (repeat empty_slot c'))) as [w| |].
+    + split; [discriminate|]. intros t' E. injection E as <-. cbn [tbl cap len arena hits].
+      destruct (Hres _ eq_refl) as (Hl' & Hr' & Hperm'). rewrite pays_repeat_empty, app_nil_r in Hperm'.
+      repeat split; auto; try lia.
+      * etransitivity; [apply Permutation_map; apply Permutation_sym; exact Hperm'|exact Hperm].
+      * intros i h Hin. apply Hh. apply (Permutation_in _ (Permutation_sym Hperm')). exact Hin.
+    + split; [discriminate|intros t' E; discriminate].
+    + congruence.
+Qed.
+
+(* a new element enters: any in-order array holding the old entries plus the new one *)
+Lemma TI_insert t e v' :
+  TI t -> S (len t) < cap t -> ~ In e (arena t) ->
+  length v' = cap t -> RHloc (cap t) v' ->
+  Permutation ((length (arena t), H e) :: pays (tbl t)) (pays v') ->
+  TI {| tbl := v'; cap := cap t; len := S (len t); hits := hits t; arena := arena t ++ [e] |}.
+Proof.
+  intros HTI Hload Hnin Hlen' HRH' Hperm'.
+  assert (Hidlt : forall i h, In (i, h) (pays (tbl t)) -> i < length (arena t)) by (intros; eapply TI_id_lt; eauto).
+  destruct HTI as (Hc & Hlen & HRH & Hperm & Hh & Hnd & Hl & Hlt).
+  unfold TI; cbn [tbl cap len arena]. rewrite app_length. cbn [length].
+  split; [exact Hc|]. split; [exact Hlen'|]. split; [exact HRH'|]. split; [|split; [|split; [|split]]].
+  - replace (length (arena t) + 1) with (S (length (arena t))) by lia. rewrite seq_S. cbn [plus].
+    etransitivity; [apply Permutation_map; apply Permutation_sym; exact Hperm'|]. cbn [map fst].
+    etransitivity; [apply perm_skip; exact Hperm|]. apply Permutation_cons_append.
+  - intros i h Hin. apply (Permutation_in _ (Permutation_sym Hperm')) in Hin. destruct Hin as [E|Hin].
+    + injection E as <- <-. rewrite app_nth2 by lia. rewrite Nat.sub_diag. reflexivity.
+    + rewrite app_nth1 by (eapply Hidlt; eauto). apply Hh. exact Hin.
+  - apply (Permutation_NoDup (Permutation_cons_append (arena t) e)). constructor; assumption.
+  - lia.
+  - exact Hload.
+Qed.
